@@ -125,6 +125,7 @@ func (f *flusher) markMetadataDirty(key, mdSuffix string) {
 		dataDirty: false,
 		dirtyMD:   map[string]struct{}{mdSuffix: {}},
 	}
+	_ = f.mem.BanEviction(key) // re-ban under f.mu: a finishing flush may just have lifted the ban
 	f.queue = append(f.queue, key)
 
 	select {
@@ -177,6 +178,11 @@ func (f *flusher) nextToFlush() (b *blob, ok bool) {
 func (f *flusher) flush(b *blob) {
 	key := b.key
 	defer func() {
+		f.mu.Lock()
+		defer f.mu.Unlock()
+		if _, again := f.blobs[key]; again {
+			return // a newer entry owns the eviction ban
+		}
 		err := f.mem.UnbanEviction(key) // prevent leak
 		if err != nil {
 			f.log.With(
